@@ -37,6 +37,25 @@ func debugDump(c *Ctx, what string) {
 		for k, e := range pt.Eff {
 			fmt.Printf("   %s -> %s\n", k, fnName(e.Fn))
 		}
+	case what == "sites":
+		// every index / slice / string-index instruction of the library packages (file:line:col)
+		for _, fn := range c.Funcs {
+			if !inLib(fn) {
+				continue
+			}
+			for _, b := range fn.Blocks {
+				for _, in := range b.Instrs {
+					switch in.(type) {
+					case *ssa.IndexAddr, *ssa.Index, *ssa.Slice:
+						fmt.Printf("%s %s\n", c.instrPos(in), fnName(fn))
+					case *ssa.Lookup:
+						if isStringType(in.(*ssa.Lookup).X.Type()) {
+							fmt.Printf("%s %s\n", c.instrPos(in), fnName(fn))
+						}
+					}
+				}
+			}
+		}
 	case what == "prod":
 		pt := c.prodTable()
 		fmt.Println("errs:", pt.Errs, "wrapper:", fnName(pt.Wrapper))
